@@ -134,6 +134,15 @@ def gen_plan(rng, nmax=8, seeded_ok=False):
         cand = [o for o in others if o not in (w, w + 1)]
         if cand:
             plan[w - 1]["var_name"] = f"n{rng.choice(cand)}"
+    # now and then a value node is not created by the user but by the library: the argument is given as a literal and
+    # wrapped into an anonymous Value node (an ordinary node of the model: it can be assigned, saved, restored)
+    for i, p in enumerate(plan, start=1):
+        if p["kind"] != "v" or p.get("wrapped") or p.get("seed_for"):
+            continue
+        users = [q for q in plan if i in q["inp"]]
+        if len(users) == 1 and users[0]["kind"] in ("c", "t", "d", "e") and users[0]["inp"].count(i) == 1 \
+                and not (users[0]["kind"] in ("d", "e") and users[0]["inp"][-1] == i) and rng.random() < 0.35:
+            p["literal"] = True
     return plan
 
 
@@ -176,6 +185,8 @@ class GraphRun:
                 continue          # created by the model for the seeded calculator that follows
             if p["kind"] == "v":
                 init[i] = Term(atoms[i % len(atoms)])
+                if p.get("literal"):
+                    continue      # handed to its user as a plain value; the library wraps it into a Value node
                 if p.get("wrapped"):
                     var = lsl.Var(init[i], name=p.get("var_name", f"var{i}"))
                     var.value_node.name = name
@@ -192,7 +203,8 @@ class GraphRun:
                 var.var_value_node.name = name
                 self.nodes[i] = var.var_value_node
             else:
-                ins = [self.nodes[j] for j in p["inp"] if not self.plan[j - 1].get("seed_for")]
+                inp = [j for j in p["inp"] if not self.plan[j - 1].get("seed_for")]
+                ins = [init[j] if self.plan[j - 1].get("literal") else self.nodes[j] for j in inp]
                 fn = self._fn(i, p["kind"], seeded=bool(p.get("seeded")))
                 if p["kind"] == "c":
                     self.nodes[i] = lsl.Calc(fn, *ins, _name=name, update_on_init=False, _needs_seed=bool(p.get("seeded")))
@@ -203,6 +215,10 @@ class GraphRun:
                     node = cls(self._dist(i, p["kind"]), *ins[:-1], _name=name)
                     node.at = ins[-1]
                     self.nodes[i] = node
+                for k, j in enumerate(inp):
+                    if self.plan[j - 1].get("literal"):
+                        self.nodes[j] = self.nodes[i].inputs[k]
+                        self.nodes[j].name = f"n{j}"
         gb = lsl.GraphBuilder(to_float32=False)
         gb.add(*self.nodes.values(), *self.vars.values())
         self.model = gb.build_model()
@@ -494,6 +510,29 @@ def random_trace(rng, nmax=8, maxops=30):
     run.close()
     hdr["ops"] = ops
     return {"hdr": hdr, "ev": ev}
+
+
+def literal_traces(nseeds=6):
+    """A distribution node (and a calculator) whose parameters were all given as literals: the library wraps them into
+    anonymous Value nodes, which are nodes of the model like any other - assigned, saved and restored here."""
+    import random
+    out = []
+    for k in range(nseeds):
+        rng = random.Random(9000 + k)
+        plan = [{"kind": "v", "inp": [], "literal": True}, {"kind": "v", "inp": [], "literal": True},
+                {"kind": "v", "inp": [], "wrapped": True}, {"kind": "p", "inp": [3]},
+                {"kind": "d" if k % 2 == 0 else "e", "inp": [1, 2, 4]}, {"kind": "v", "inp": [], "literal": True},
+                {"kind": "c", "inp": [6, 4]}]
+        run = GraphRun(plan)
+        hdr = run.header(hidden=True)
+        ops = [{"ev": "update_all"}, {"ev": "assign", "n": 1 + k % 2, "x": "c7", "via_var": False}, {"ev": "update_all"},
+               {"ev": "save"}, {"ev": "assign", "n": 6, "x": "c8", "via_var": False}]
+        ops += gen_ops(rng, plan, 14, reload_ok=True)
+        ev = run_ops(run, ops)
+        run.close()
+        hdr["ops"] = ops
+        out.append({"hdr": hdr, "ev": ev})
+    return out
 
 
 def replay_trace(hdr):
